@@ -100,10 +100,8 @@ def _run_pwl(ctx, case, st):
     kin = (rng.normal(size=(pb, in_units, nk - 2)) * mag).astype(np.float32)
     in_form = case["in_form"] if case["in_form"] != "none_if_nk2" else "3d"
     if in_form == "2d":
-      if units == 1:
-        kin = kin[:, 0, :]
-      else:
-        in_form = "3d"
+      # documented: (1, P) / (batch, P), shared by all units
+      kin = kin[:, 0, :]
   kout = (rng.normal(size=(pb, units, out_size)) * mag).astype(np.float32)
   out_form = case["out_form"]
   if out_form == "2d" and units == 1:
@@ -304,6 +302,25 @@ def _run_cdf(ctx, case, st):
     worst = float((y - y2).max())
     ctx.check("cdf/monotone", worst <= 1e-6 * (1.0 + hi), "output decreases by %.3g when input %d increases" % (worst, d),
               info={"dim": d, "worst": worst}, ratio=max(worst, 0) / (1e-6 * (1 + hi)))
+  if case["kind"] == "cdf_layer" and D > 1:
+    # the documented `(batch_size, 1)` input form: one column shared by every input dimension of the built kernel
+    xs = x[:, :1]
+    try:
+      ys = f(xs)
+      yt = f(np.repeat(xs, D, axis=1))
+      ok = bool(np.all(np.isfinite(ys))) and ys.min() >= lo - 1e-6 and ys.max() <= hi + 1e-5
+      ctx.check("cdf/in-range", ok, "shared-input form (batch, 1): outputs leave [%g, %g]: min %.9g max %.9g" % (lo, hi, np.nanmin(ys), np.nanmax(ys)),
+                info={"form": "shared", "min": float(np.nanmin(ys)), "max": float(np.nanmax(ys))})
+      same = ys.shape == yt.shape and float(np.abs(ys - yt).max()) <= 1e-5
+      ctx.check("cdf/shared-input-equals-repeated-column", same,
+                "(batch, 1) input differs from the same column repeated %d times by %s" % (D, float(np.abs(ys - yt).max()) if ys.shape == yt.shape else "shape %s vs %s" % (ys.shape, yt.shape)),
+                info={"form": "shared", "reduction": red, "sparsity": sf})
+      xs2 = xs + np.abs(rng.normal(size=xs.shape)).astype(np.float32)
+      worst = float((ys - f(xs2)).max())
+      ctx.check("cdf/monotone", worst <= 1e-6 * (1.0 + hi), "shared-input form: output decreases by %.3g when the input increases" % worst, info={"form": "shared"})
+    except Exception as e:
+      ctx.check("cdf/shared-input-equals-repeated-column", False, "(batch, 1) input raised %s: %s" % (type(e).__name__, str(e).strip().splitlines()[-1][:160]),
+                info={"form": "shared", "reduction": red, "sparsity": sf})
   return float(y.max() - y.min()) > 0, core.digest([case, core.arr_digest(x)])
 
 
